@@ -34,6 +34,26 @@ pub fn update_after_add<S: Source>(s: &mut S) {
     forget((p, q, r, held));
 }
 
+/// a hand-supplied gradient whose dimensions differ from the parameter's (same element count):
+/// the parameter keeps its own dimensions and is stepped element by element
+pub fn update_odd_gradient_shape<S: Source>(s: &mut S) {
+    let lr = s.lr();
+    let mut p = mk(s, &[2], Dom::D4).tracked();
+    let mut q = mk(s, &[1, 2], Dom::D4).tracked();
+    let (op, oq) = (p.values().to_vec(), q.values().to_vec());
+    let (gp, gq) = (s.vals(2, Dom::D4), s.vals(2, Dom::D4));
+    *p.gradient_mut() = Some(Array::from((vec![1, 2], gp.clone())));
+    *q.gradient_mut() = Some(Array::from((vec![2], gq.clone())));
+    GradientDescent::new(lr).update(vec![&mut p, &mut q]);
+    chk!(dims_eq(p.dimensions(), &[2]) && dims_eq(q.dimensions(), &[1, 2]), "[c13:dims] update changed a parameter's dimensions");
+    for j in 0..2 {
+        chk!(p.values()[j] == op[j] - lr * gp[j], "[c13:step] new value is not old - lr * gradient of this parameter");
+        chk!(q.values()[j] == oq[j] - lr * gq[j], "[c13:step] new value is not old - lr * gradient of this parameter");
+    }
+    witness();
+    forget((p, q));
+}
+
 /// a parameter that holds a gradient while its tracking is switched off at update time is
 /// stepped like any other and comes back tracked
 pub fn update_grad_while_untracked<S: Source>(s: &mut S) {
